@@ -305,6 +305,19 @@ theorem pres_more {P : VS → Prop} (hP : HG P) (k : Nat) (acc : Bytes) : Pres P
     unfold readCharS.more
     cases hP <;> repeat' (first | exact ih _ | pres_step)
 
+theorem pres_readKey_more {P : VS → Prop} (hP : HG P) (k : Nat) : Pres P (readKey.more k) := by
+  induction k with
+  | zero => unfold readKey.more; exact Pres.pure _
+  | succ k ih =>
+    unfold readKey.more
+    cases hP <;> repeat' (first | exact ih | pres_step)
+
+/-- `led_readkey()` touches only the key queue, like `termRead` -/
+theorem pres_readKey {P : VS → Prop} (hP : HG P) : Pres P readKey := by
+  unfold readKey
+  cases hP <;> repeat' (first | exact pres_readKey_more (by constructor) _ | pres_step)
+macro_rules | `(tactic| pres_leaf) => `(tactic| with_reducible exact pres_readKey (by constructor))
+
 theorem pres_readCharS {P : VS → Prop} (hP : HG P) (c : Int) (kmap : Nat) : Pres P (readCharS c kmap) := by
   unfold readCharS
   cases hP <;> repeat' (first | exact pres_more (by constructor) _ _ | pres_step)
